@@ -331,6 +331,10 @@ func main() {
 	sampleN := flag.Int("sample", 300, "sqlshape: lines also judged by TLC")
 	seed := flag.Int64("seed", 1, "seed")
 	flag.Parse()
+	if *mode == "project" {
+		modeProject(*in, *out, *stats)
+		return
+	}
 	if *mode == "sqlshape" {
 		modeSQLShape(*in, *out, *stats, *sampleN, *seed)
 		return
